@@ -2,8 +2,8 @@
 # Confirm a seeded change independently in its scratch worktree:
 #   compiles, passes the pinned suite, demo fails with it and passes without it.
 # usage: confirm_seed.sh C07   -> writes /tmp/seed/C07/confirm.json
-ID=$1
-WT=/tmp/seed/$ID
+ID=$1; ROOT=${2:-/tmp/seed}
+WT=$ROOT/$ID
 cd $WT || exit 2
 git checkout -q -- src include
 if ! git apply --check out/patch.diff 2>/dev/null; then echo "{\"id\":\"$ID\",\"error\":\"patch does not apply to its own worktree\"}" > confirm.json; exit 1; fi
